@@ -51,7 +51,7 @@ ProtoFails(o) ==
   \cup (IF /\ Len(q.walk) = Min(n \div q.stride, 4096)
            /\ \A j \in 1..Len(q.walk) : q.walk[j][1] = j * q.stride - 1 /\ <<q.walk[j][2], q.walk[j][3]>> = RunsNth(o.pr, q.walk[j][1])
         THEN {} ELSE {"nth_differs_from_next"})
-  \cup (IF q.after = <<1, 1>> THEN {} ELSE {"yields_again_after_the_end"})
+  \* (q.after - two more calls of next() after the end - is recorded but not judged: Iterator does not promise fusedness)
   \* mixed consumption <<k, count, last, fold count, fold first, fold last, skip(k).count()>>: after k items pulled with
   \* next() the other methods see exactly the rest of the same sequence
   \cup (IF \A j \in 1..Len(q.mixed) :
